@@ -51,7 +51,7 @@ def run(tier, seed, selftest=False, replay=None):
         "rule": "generated, erased and overwritten programs of 4 languages are translated by the real translators; for every class, function, "
                 "variable/field declaration (typed / untyped), inferable constructor call and string literal of the program TLC computes from the "
                 "walk how often the corresponding header / annotation must occur (HInventory.Expected) and compares with the count of the "
-                "language's textual pattern (harness/scan.py); plus bracket balance. evaluations = probes compared, distinct = programs",
+                "language's textual pattern (harness/scan.py); plus bracket balance; the header of every function (Kotlin, Scala) and class (all languages) must declare each of its type parameters (fun_tparam / class_tparam); the three programs of a seed go through one translator object, as in the driver. evaluations = probes compared, distinct = programs",
         "samples": [{"program": sample["id"], "probes": sample["counts"][:10]}],
         "programs": nprog, "states": sum(v.distinct for v in vals), "checker_cmd": "inv_exec.py ; tlc HInventoryTrace",
     }, time.time() - t0, len(verdict.violations),
